@@ -56,6 +56,15 @@ impl SimpleCase for JsonCase {
                           ("from_reader(short reads)", SourceMap::from_reader(Chunky { data: &bytes, step: 3 }).ok())] {
           match r { Some(x) => if SMapT::of(&x) != want { v.push(finding("round-trip", format!("{name}: {:?} instead of {:?}", SMapT::of(&x), want))); }, None => v.push(finding("round-trip", format!("{name} rejects the document to_json produced"))) }
         }
+        // … and whatever was parsed before on this thread: after failed parses (a truncated document through every entry point, a reader
+        // that fails part-way) the same document still reads back the same
+        struct Failing<'a> { data: &'a [u8] }
+        impl std::io::Read for Failing<'_> { fn read(&mut self, buf: &mut [u8]) -> std::io::Result<usize> { if self.data.is_empty() { return Err(std::io::Error::new(std::io::ErrorKind::Other, "broken pipe")) } let n = 5.min(buf.len()).min(self.data.len()); buf[..n].copy_from_slice(&self.data[..n]); self.data = &self.data[n..]; Ok(n) } }
+        let trunc = &bytes[..bytes.len() / 2];
+        let _ = SourceMap::from_json(&String::from_utf8_lossy(trunc)); let _ = SourceMap::from_slice(trunc); let _ = SourceMap::from_reader(trunc); let _ = SourceMap::from_reader(Failing { data: trunc });
+        for (name, r) in [("from_json", SourceMap::from_json(&text).ok()), ("from_slice", SourceMap::from_slice(&bytes).ok()), ("from_reader", SourceMap::from_reader(&bytes[..]).ok())] {
+          match r { Some(x) => if SMapT::of(&x) != want { v.push(finding("round-trip-after-failed-parse", format!("{name}: {:?} instead of {:?}", SMapT::of(&x), want))); }, None => v.push(finding("round-trip-after-failed-parse", format!("{name} rejects the document to_json produced, after a failed parse on the same thread"))) }
+        }
       }
       JsonCase::Parse(b) => {
         // expectation from the independent parser: nulls / missing arrays read as empty
